@@ -338,6 +338,18 @@ func ruleOnlyReadDeadline(w *World, r *Report, prop, rule string) {
 		if f.Pkg == nil || f.Pkg.Pkg.Path() != pfcpPkg || strings.HasPrefix(w.FuncName(f), "test/") {
 			continue
 		}
+		// the helper sockets of the datapath plug-ins (end markers, notifications) are not the PFCP socket
+		{
+			root := f
+			for root.Parent() != nil {
+				root = root.Parent()
+			}
+			if root.Signature.Recv() != nil {
+				if rt := rootTypeName(root.Signature.Recv().Type()); rt == "bess" || rt == "UP4" {
+					continue
+				}
+			}
+		}
 		f := f
 		allInstrs(f, func(i ssa.Instruction) {
 			c, ok := i.(ssa.CallInstruction)
